@@ -81,6 +81,48 @@ type env struct {
 	adv    adv
 	rec    *paramRecorder
 	wg     sync.WaitGroup
+
+	mu      sync.Mutex
+	s2cEnds map[uint64]uint64 // highest stream offset the server put on the wire, per stream
+}
+
+// tap follows the server's STREAM frames as they are sent (called by the router for every datagram).
+func (e *env) tap(dir sim.Dir, rec *sim.Record) {
+	if dir != sim.S2C {
+		return
+	}
+	pkts, _ := rec.Pkts.([]*sim.Packet)
+	for _, p := range pkts {
+		for i := range p.Frames {
+			if f := &p.Frames[i]; f.Name == refwire.NameStream {
+				e.mu.Lock()
+				if end := f.Offset + uint64(len(f.Data)); end > e.s2cEnds[f.StreamID] {
+					e.s2cEnds[f.StreamID] = end
+				}
+				e.mu.Unlock()
+			}
+		}
+	}
+}
+
+func (e *env) dumpFrames() {
+	for _, d := range []string{"s2c", "c2s"} {
+		e.frames(d, func(rec *sim.Record, p *sim.Packet, f *refwire.Frame) {
+			if p.Kind == "1rtt" && f.Name != refwire.NameAck && f.Name != refwire.NamePadding {
+				fmt.Printf("%s #%d t=%v pn=%d %s stream=%d off=%d len=%d fin=%v max=%d\n", d, rec.Seq, rec.T, p.PN, f.Name, f.StreamID, f.Offset, len(f.Data), f.Fin, f.Max)
+			}
+		})
+	}
+}
+
+// serverSent is the number of distinct stream bytes the server has put on the wire so far.
+func (e *env) serverSent() (total uint64) {
+	e.mu.Lock()
+	defer e.mu.Unlock()
+	for _, v := range e.s2cEnds {
+		total += v
+	}
+	return
 }
 
 const stallTimeout = 8 * time.Second // a Read that sees no byte for this long in a lossless network is a stall
@@ -112,6 +154,8 @@ func setup(c Case, sc Scenario) (*env, *vf.Verdict) {
 	e := &env{c: c, sc: sc, rtt: time.Duration(c.RTTms) * time.Millisecond}
 	e.w = sim.NewWorld(e.rtt, nil, nil, nil)
 	e.w.Observe()
+	e.s2cEnds = map[uint64]uint64{}
+	e.w.Router.Tap = e.tap
 	e.st = &quic.Transport{Conn: e.w.ServerConn, ConnectionIDLength: c.Srv.CIDLen}
 	sconf := &quic.Config{DisablePathMTUDiscovery: true, MaxIdleTimeout: time.Duration(c.Srv.IdleMs) * time.Millisecond,
 		HandshakeIdleTimeout: 10 * time.Second, EnableDatagrams: true, MaxIncomingStreams: 1000, MaxIncomingUniStreams: 1000}
@@ -637,6 +681,7 @@ func (e *env) transfer(what string, plan []planned, extra uint64) *vf.Verdict {
 	}
 	boundary := make(chan srvRes, 1)
 	done := make(chan srvRes, 1)
+	proceed := make(chan struct{})
 	e.wg.Add(1)
 	go func() {
 		defer e.wg.Done()
@@ -670,6 +715,12 @@ func (e *env) transfer(what string, plan []planned, extra uint64) *vf.Verdict {
 			}
 		}
 		boundary <- srvRes{}
+		select {
+		case <-proceed:
+		case <-e.ctx.Done():
+			done <- srvRes{"waiting", e.ctx.Err()}
+			return
+		}
 		last := len(plan) - 1
 		for _, s := range streams[:last] {
 			s.Close()
@@ -718,10 +769,21 @@ func (e *env) transfer(what string, plan []planned, extra uint64) *vf.Verdict {
 		}
 		return e.bad(sigOpenBlocked, "%s: the peer could not write %d bytes within the advertised limits in an hour of virtual time (plan %v)", what, total, plan)
 	}
+	// Write returns as soon as the last (small) piece is buffered: wait until everything is on the wire
+	for wait := time.Millisecond; e.serverSent() < total; wait *= 2 {
+		if wait > 20*time.Second {
+			if v := e.alive(what); v != nil {
+				return v
+			}
+			return e.bad(sigOpenBlocked, "%s: the peer put only %d of the %d bytes on the wire although they are within the advertised limits (plan %v)", what, e.serverSent(), total, plan)
+		}
+		time.Sleep(wait)
+	}
 	time.Sleep(e.rtt + 100*time.Millisecond)
 	if v := e.alive(what + ": after the peer wrote exactly the advertised credit and the client application read nothing"); v != nil {
 		return v
 	}
+	close(proceed)
 	// drain
 	readers := make([]deadlineReader, len(plan))
 	li := 0
@@ -782,6 +844,9 @@ func (e *env) transfer(what string, plan []planned, extra uint64) *vf.Verdict {
 	}
 	for _, s := range localStreams {
 		s.Close()
+	}
+	if os.Getenv("VERIF_C12_DEBUG") == "2" {
+		e.dumpFrames()
 	}
 	return e.alive(what)
 }
@@ -1078,7 +1143,7 @@ func (e *env) scenDgram(u *vf.Unit) result {
 		return one(v)
 	}
 	received := 0
-	if e.c.Cfg.Datagrams {
+	{
 		pending := map[string]int{}
 		for _, d := range delivered {
 			pending[string(d)]++
@@ -1087,6 +1152,11 @@ func (e *env) scenDgram(u *vf.Unit) result {
 			ctx, cancel := context.WithTimeout(e.ctx, 3*time.Second)
 			b, err := e.cconn.ReceiveDatagram(ctx)
 			cancel()
+			if err != nil && !e.c.Cfg.Datagrams && received == 0 && strings.Contains(err.Error(), "datagram support disabled") {
+				// the user did not ask for datagrams: the API may refuse to hand them out (the connection must survive them)
+				u.Class("dgram:api-refused")
+				break
+			}
 			if err != nil {
 				if v := e.alive(what); v != nil {
 					return one(v)
